@@ -10,3 +10,4 @@ import Dtr.Props.C10
 #print axioms Dtr.C12_calls_and_declarations
 #print axioms Dtr.C12_accepted_in_grammar
 #print axioms Dtr.C12_block_in_grammar
+#print axioms Dtr.C12_function_table_from_source
